@@ -177,6 +177,20 @@ func (ll *LevelList) AscendLevels(offset int) iter.Seq[Level] {
 	}
 }
 
+// NextTableNumber returns 1 greater than the largest file number of the tables
+// in the list (0 for a list without numbered tables).
+func (ll *LevelList) NextTableNumber() int64 {
+	var next int64
+	for _, level := range ll.levels {
+		for t := range level.AllTables() {
+			if n, ok := t.FileNumber(); ok && n >= next {
+				next = n + 1
+			}
+		}
+	}
+	return next
+}
+
 func (ll *LevelList) DescendLevels(offsets ...int) iter.Seq[Level] {
 	if len(offsets) > 2 {
 		panic(fmt.Sprintf("DescendLevels takes 0 to 2 offset arguments not %d", len(offsets)))
